@@ -184,6 +184,7 @@ def ring_executor(ctx, ty_pat=r'fq::Fq', name='Fq', extra_models=(), **kw):
     D = models.RingDomain(ty_pat, name)
     ex = new_executor(ctx, D.models(), extra_models, **kw)
     D.install(ex)
+    ctx.chk.axioms += [D.isz(z3.IntVal(0)), z3.Not(D.isz(z3.IntVal(1))), z3.Not(D.isz(z3.IntVal(-1)))]
     return ex, D
 
 
@@ -223,3 +224,56 @@ class Identities:
                                    {'obligation': o.name, 'point_mod_q': {k: (hex(v) if isinstance(v, int) and not isinstance(v, bool) else v)
                                                                           for k, v in pt.items() if k not in self.const_values},
                                     'how': 'evaluate the named operation on these coefficients (mod q) and compare with the textbook result'})
+
+
+def concretize(formula, model, mod):
+    """Evaluate a violation formula at the solver's point with every isz_* predicate interpreted as the real
+    zero test modulo `mod`.  Returns True / False, or None when it does not reduce to a constant."""
+    subs = []
+    for v in z3_vars(formula):
+        val = (model or {}).get(v.decl().name(), 0)
+        if z3.is_bv(v):
+            subs.append((v, z3.BitVecVal(val if not isinstance(val, bool) else int(val), v.size())))
+        elif z3.is_bool(v):
+            subs.append((v, z3.BoolVal(bool(val))))
+        elif z3.is_int(v):
+            subs.append((v, z3.IntVal(val)))
+    f = z3.simplify(z3.substitute(formula, *subs)) if subs else z3.simplify(formula)
+    # replace isz(c) atoms bottom-up
+    for _ in range(6):
+        atoms = []
+        seen, stack = set(), [f]
+        while stack:
+            x = stack.pop()
+            if x.get_id() in seen:
+                continue
+            seen.add(x.get_id())
+            if z3.is_app(x) and x.decl().name().startswith('isz_') and x.num_args() == 1:
+                a = z3.simplify(x.arg(0))
+                if z3.is_int_value(a):
+                    atoms.append((x, z3.BoolVal(a.as_long() % mod == 0)))
+                    continue
+            stack.extend(x.children())
+        if not atoms:
+            break
+        f = z3.simplify(z3.substitute(f, *atoms))
+    if z3.is_true(f):
+        return True
+    if z3.is_false(f):
+        return False
+    return None
+
+
+def settle_structural(ctx, groups, keyprefix, mod=ref.Q):
+    """sat answers on case-structure / conversion / no-panic obligations become violations only when the violation
+    formula is true at the solver's point with isz read as the zero test modulo q; otherwise they stay inconclusive"""
+    chk = ctx.chk
+    for o in chk.failed():
+        if o.handled or o.group not in groups or o.expect != 'unsat':
+            continue
+        f = chk.formulas.get(o.name)
+        v = concretize(f, o.model, mod) if f is not None else None
+        if v is True:
+            o.handled = True
+            ctx.violation(keyprefix + ':' + o.name.split(':')[0][:50], '%s obligation fails: %s' % (keyprefix, o.name),
+                          {'obligation': o.name, 'model': o.model, 'confirmed': 'violation formula is true at this point with isz := (t mod q == 0)'})
